@@ -378,3 +378,23 @@ def run_case(case):
             uniq.setdefault(v["signature"], v)
         res.update(status="violation", violations=list(uniq.values()))
     return res
+
+
+def finish(ctx):
+    """Conformance of the virtual pipeline: the same scenarios run free on the real multiprocessing module."""
+    import json
+    import subprocess
+    import sys
+
+    script = os.path.join(os.path.dirname(os.path.dirname(os.path.abspath(__file__))), "vlib", "realmp_conf.py")
+    p = subprocess.run([sys.executable, script, "c09", str(ctx["seed"])], capture_output=True, text=True)
+    try:
+        rep = json.loads(p.stdout.strip().splitlines()[-1])
+    except Exception:
+        ctx["errors"].append(dict(case="realmp conformance", trace=p.stdout[-2000:] + p.stderr[-2000:]))
+        return dict(conformance_runs=0)
+    if rep["mismatches"] and not ctx["found"]:
+        ctx["errors"].append(dict(case="realmp conformance",
+                                  trace="the real multiprocessing pipeline behaves differently from what the virtual "
+                                        f"exploration found: {rep['mismatches']}"))
+    return dict(conformance_runs=rep["runs"], conformance_mismatches=len(rep["mismatches"]))
